@@ -80,8 +80,9 @@ class ScenarioFamily(Family):
 
 
 # clauses of one property that are decided by another property's oracle on the same trace
-# (C13: 'eviction never changes what gets processed: still handled exactly once and can still be awaited')
-ALSO = {'C13': ('C01', 'C03')}
+# (C13: 'eviction never changes what gets processed: still handled exactly once and can still be awaited';
+#  C11: 'the other handlers of the event and all later events still run exactly once')
+ALSO = {'C13': ('C01', 'C03'), 'C11': ('C01',)}
 
 # counter keys that make a scenario non-trivial for a property (>=1 non-vacuous oracle evaluation)
 NONTRIVIAL = {
